@@ -521,6 +521,15 @@ class Interp(ExprMixin, CallMixin):
 
     def s_For(self, n, st):
         out = []
+        if isinstance(n.iter, ast.GeneratorExp) and len(n.iter.generators) == 1 and not n.iter.generators[0].ifs \
+                and not n.iter.generators[0].is_async:
+            # `for x in (f(y) for y in ys): body` runs `x = f(y); body` for every y of ys, lazily, in order
+            g = n.iter.generators[0]
+            bind = ast.copy_location(ast.Assign(targets=[n.target], value=n.iter.elt), n.iter)
+            plain = ast.For(target=g.target, iter=g.iter, body=[bind] + list(n.body), orelse=n.orelse)
+            ast.copy_location(plain, n)
+            ast.fix_missing_locations(plain)
+            return self.s_For(plain, st)
         for itv, s in self.eval(n.iter, st):
             if isinstance(itv, Raise):
                 out.append(self._raise_out(itv, s))
